@@ -237,11 +237,13 @@ impl Memfs {
 
         // Validate the path itself
         if let Some(x) = guard.get_entry(&path) {
-            if entry.is_file() && !x.is_file() {
+            // An existing symlink is neither a file nor a directory unless a symlink is being added
+            let other_link = x.is_symlink() && !entry.is_symlink();
+            if entry.is_file() && (!x.is_file() || other_link) {
                 return Err(PathError::is_not_file(&path).into());
             } else if entry.is_symlink() && !x.is_symlink() {
                 return Err(PathError::is_not_symlink(&path).into());
-            } else if entry.is_dir() && !x.is_dir() {
+            } else if entry.is_dir() && (!x.is_dir() || other_link) {
                 return Err(PathError::is_not_dir(&path).into());
             }
         } else {
